@@ -52,13 +52,13 @@ def _cond_nodes(node, fn):
 def conversion_guard(repo, call, fi):
     """int(x) / float(x): among the conditions under which it runs (nested tests, guard clauses, short-circuits) there must
     be a *full* match of x against a purely numeric pattern."""
-    var = call.args[0].id
+    var = norm(call.args[0])
     for text, t in _cond_nodes(call, fi.node):
         if isinstance(t, ast.Call) and isinstance(t.func, ast.Attribute) and t.func.attr == "fullmatch":
             pat = None
-            if norm(t.func.value) == "re" and len(t.args) == 2 and is_name(t.args[1], var) and isinstance(t.args[0], ast.Constant):
+            if norm(t.func.value) == "re" and len(t.args) == 2 and norm(t.args[1]) == var and isinstance(t.args[0], ast.Constant):
                 pat = t.args[0].value
-            elif len(t.args) == 1 and is_name(t.args[0], var) and isinstance(t.func.value, ast.Name):
+            elif len(t.args) == 1 and norm(t.args[0]) == var and isinstance(t.func.value, ast.Name):
                 try:
                     v = repo.module_assign(fi.module, t.func.value.id)
                     if isinstance(v, ast.Call) and norm(v.func) == "re.compile" and isinstance(v.args[0], ast.Constant):
@@ -429,14 +429,19 @@ def run(repo, chk):
             chk.ob("R18.1", f"{key}:index-or-unpack", why is not None, f"ptera/{fi.module}.py:{n.lineno}",
                    f"`{site}` cannot fail: {why}" if why else f"`{site}` may raise IndexError/KeyError/ValueError on a user-controlled value: no length/membership guard on the path and no recorded reason")
     # numeric conversions of selector words
+    n_conv = 0
     for q in sorted(reach):
         fi = repo.functions[q]
         for n in walk_local(fi.node):
-            if isinstance(n, ast.Call) and isinstance(n.func, ast.Name) and n.func.id in ("int", "float") and len(n.args) == 1 and isinstance(n.args[0], ast.Name):
+            if isinstance(n, ast.Call) and isinstance(n.func, ast.Name) and n.func.id in ("int", "float") and len(n.args) == 1 and not n.keywords \
+                    and not isinstance(n.args[0], ast.Constant):
+                n_conv += 1
                 why = conversion_guard(repo, n, fi)
                 chk.ob("R18.1", f"{q}:{norm(n)}:conversion-guarded", why is not None, f"ptera/{fi.module}.py:{n.lineno}",
                        f"`{norm(n)}` cannot fail: {why}" if why else
                        f"`{norm(n)}` may raise ValueError: the word is not guaranteed to be a complete numeric literal (needs re.fullmatch with a purely numeric pattern on the same variable)")
+    if n_conv < 2:
+        raise AnalysisError(f"only {n_conv} int()/float() conversions of selector words found (confirmed by hand: 2 in VSymbol.eval)")
     # syntax errors carry a position
     se = repo.func("opparse.Location.syntax_error")
     fse = facts_of(se)
